@@ -79,7 +79,12 @@ func NewTicker(d Duration) *Ticker {
 
 func (t *Ticker) Stop() { t.h.Stop() }
 
-func (t *Ticker) Reset(d Duration) { t.h.Reset(d) }
+func (t *Ticker) Reset(d Duration) {
+	if d <= 0 {
+		panic("non-positive interval for Ticker.Reset") // as the real ticker does
+	}
+	t.h.Reset(d)
+}
 
 func Tick(d Duration) <-chan Time {
 	if d <= 0 {
